@@ -184,7 +184,7 @@ def _task(task, p):
                     oe, le = wc.call_variant(variant, ye, nde, p=p_env, srange=srange, robust=True)
                 except Exception as e:
                     p.violation("robust_placeholders", {"variant": variant, "enc": enc, "n": n, "p": p_env, "srange": [float(srange[0]), len(srange)]},
-                                {"kind": "robust_placeholders"}, f"{variant}(robust=True) raised {type(e).__name__}: {e} with missing cells encoded as {enc}")
+                                {"kind": "robust_placeholders", "n": n, "p": p_env, "si": si, "letters": list(letters), "thorough": thorough}, f"{variant}(robust=True) raised {type(e).__name__}: {e} with missing cells encoded as {enc}")
                     continue
                 if base is None:
                     base = (oe, le, nde)
@@ -193,7 +193,7 @@ def _task(task, p):
                 p.count("robust_placeholders", evaluations=int(hasgap.sum()), nontrivial=int(hasgap.sum()), states=int(hasgap.sum()))
                 for j in np.nonzero(diff)[0][:3]:
                     p.violation("robust_placeholders", {"variant": variant, "enc": enc, "word": isel[j].tolist(), "p": p_env, "srange": [float(srange[0]), len(srange)]},
-                                {"kind": "robust_placeholders"},
+                                {"kind": "robust_placeholders", "n": n, "p": p_env, "si": si, "letters": list(letters), "thorough": thorough},
                                 f"{variant}(robust=True, p={p_env}): word {isel[j].tolist()} over letters {list(letters)}: missing cells as {base[2]} -> {base[0][j].tolist()} "
                                 f"lambda {float(base[1][j])!r}; encoded as {enc} (nodata argument {nde}) -> {oe[j].tolist()} lambda {float(le[j])!r}")
         if n == 6:
@@ -338,9 +338,7 @@ def replay(sub, case, p):
         spell_common.run(p, "C05")
         return
     if case["kind"] == "robust_placeholders":
-        for pe in (None, 0.2, 0.8):
-            for n in (5, 6):
-                _task(("words", n, 0, True, pe, wc.letters_for(p.seed), False), p)
+        _task(("words", case["n"], case["si"], True, case["p"], tuple(case["letters"]), case["thorough"]), p)
         return
     if case["kind"] == "gcv":
         y = np.asarray([case["y"]], dtype=np.float64)
